@@ -82,6 +82,19 @@ func (s *scriptChecker) begin(failing map[string]bool) {
 	s.mu.Unlock()
 }
 
+// maxCalls returns the largest number of checks any one address has had since begin/take.
+func (s *scriptChecker) maxCalls() int {
+	s.mu.Lock()
+	defer s.mu.Unlock()
+	m := 0
+	for _, n := range s.calls {
+		if n > m {
+			m = n
+		}
+	}
+	return m
+}
+
 func (s *scriptChecker) take() map[string]int {
 	s.mu.Lock()
 	defer s.mu.Unlock()
@@ -213,12 +226,27 @@ func runMonitor(c Case) pbt.Verdict {
 	if got := mon.Resolve(); !stringset.Equal(got, init) {
 		return pbt.Fail("monitor does not report the initial hosts healthy before the first check\ninitial=%v got=%v", init.ToSlice(), got.ToSlice())
 	}
+	// staleChecks: a round checks each listed host once (a few times, if an implementation
+	// retried). A host checked this often without the monitor having asked for the host
+	// list in between means check rounds are being run against a list that is not re-read.
+	const staleChecks = 200
+	stale := false
 	waitArrive := func() bool {
-		select {
-		case <-g.arrived:
-			return true
-		case <-time.After(structuralWait):
-			return false
+		deadline := time.After(structuralWait)
+		tick := time.NewTicker(2 * time.Millisecond)
+		defer tick.Stop()
+		for {
+			select {
+			case <-g.arrived:
+				return true
+			case <-tick.C:
+				if chk.maxCalls() >= staleChecks {
+					stale = true
+					return false
+				}
+			case <-deadline:
+				return false
+			}
 		}
 	}
 	notScheduled := pbt.Verdict{Discard: true, Classes: []string{"monitor-loop-not-scheduled"}}
@@ -232,6 +260,9 @@ func runMonitor(c Case) pbt.Verdict {
 		// The loop announcing its next Resolve call means the result of the previous
 		// round has been stored; it then stays parked until the harness hands it a list.
 		if !waitArrive() {
+			if stale {
+				return pbt.Fail("monitor: a host was checked %d times in a row without the monitor reading the host list in between: check rounds do not follow the list (hosts that join are never reported, hosts that left keep being reported); before round %d", chk.maxCalls(), i)
+			}
 			return notScheduled
 		}
 		if pending != nil {
